@@ -24,6 +24,11 @@ def index(left: Sequence[object], obj: object) -> object:
         # An empty array, unless the undefined type is strict.
         left = list(left)
 
+    if isinstance(obj, Undefined):
+        # Look for nil, whatever the undefined type. `Undefined` and
+        # `FalsyStrictUndefined` disagree about being equal to `None` and `False`.
+        obj = obj.__liquid__()
+
     try:
         return left.index(obj)
     except ValueError:
